@@ -9,7 +9,7 @@ pub fn walk_expr(x: &Expr, f: &mut dyn FnMut(&Expr)) {
             walk_expr(a, f);
             walk_expr(b, f);
         }
-        EKind::Neg(a) | EKind::Not(a) | EKind::Field(a, _) | EKind::TupleIdx(a, _) | EKind::MaybeJust(a) => walk_expr(a, f),
+        EKind::Neg(a) | EKind::Not(a) | EKind::Field(a, _) | EKind::TupleIdx(a, _) | EKind::MaybeJust(a) | EKind::Mark(a) => walk_expr(a, f),
         EKind::If(bs, d) => {
             for (c, b) in bs {
                 walk_expr(c, f);
